@@ -226,3 +226,8 @@ class PatternEventStream(PatternValueStream):
                 self._stream.throw(stm.StopStream)
             except StopIteration:
                 pass
+            except RuntimeError as e:
+                # A generator suspended outside its StopStream handler lets
+                # the exception through, Python turns it into RuntimeError.
+                if not isinstance(e.__cause__, StopIteration):
+                    raise
